@@ -1017,6 +1017,24 @@ func ruleAutoMTLSGate(c *Ctx) {
 				}
 				return false
 			}
+			// the gate tests the variable as read from the environment: no other assignment to it
+			var reDef ast.Node
+			ast.Inspect(f.Body, func(x ast.Node) bool {
+				if as, ok := x.(*ast.AssignStmt); ok && as != getN.Ast {
+					for _, l := range as.Lhs {
+						if id, ok := ast.Unparen(l).(*ast.Ident); ok && (info.Uses[id] == certVar || info.Defs[id] == certVar) {
+							reDef = as
+						}
+					}
+				}
+				return true
+			})
+			if reDef != nil {
+				c.R.Violate("R-TLS/automtls", p.Pos(reDef), f.Name, "client certificate variable holds the environment value",
+					"the variable read from PLUGIN_CLIENT_CERT is assigned again before the AutoMTLS gate tests it: for values on which this assignment empties it the plugin skips mutual TLS and serves plaintext although the host asked for AutoMTLS", nil)
+			} else {
+				c.R.Hold("R-TLS/automtls", p.Pos(getN.Ast), f.Name, "client certificate variable holds the environment value", "single assignment, from os.Getenv(PLUGIN_CLIENT_CERT)", true)
+			}
 			seen := g.ReachAfter(getN, func(m *Node) bool { return m == assignN }, cut)
 			if _, bad := seen[serveN]; bad {
 				c.R.Violate("R-TLS/automtls", p.Pos(assignN.Ast), f.Name, "server AutoMTLS is not conditional on anything but the certificate being present",
